@@ -458,8 +458,7 @@ theorem execMethodNode_lt (E : Env D F c ff) {item : ItemK} {any : AnyK} (hI : L
     split
     · exact next_from E hI (Keep.refl s) nx _ f hn (E.doc.int _) hcur hf
     · split
-      · rename_i hcond
-        exact returnVerboseError_out (Keep.refl s) hf (fun h => by simp [h.1] at hcond)
+      · exact structural_out (Keep.refl s) hf
       · exact next_from E hI (Keep.refl s) nx _ f hn (E.doc.int _) hcur hf
   · exact next_from E hI (Keep.refl s) nx _ f hn (E.doc.str _) hcur hf
 
@@ -785,9 +784,7 @@ theorem execArrayIndex_lt (E : Env D F c ff) {item : ItemK} (hI : LTI D F c ff i
     Out F c s (execArrayIndex c item s subs nx v f) := by
   unfold execArrayIndex
   split
-  · rename_i hnone
-    exact returnVerboseError_out (Keep.refl s) hf (fun h => by
-      have h1 := h.1; rw [arrayOf_none hnone] at h1; cases h1)
+  · exact structural_out (Keep.refl s) hf
   · rename_i xs hxs
     try dsimp only
     have hmem := arrayOf_mem E hxs hv
